@@ -4417,3 +4417,119 @@ def r16_13(ctx):
     else:
         ctx.bad("is_broadcast_v4|inline-broadcast", "InterfaceInner::is_broadcast_v4 computes the subnet broadcast address itself (network | !netmask) instead of through Ipv4Cidr::broadcast(): "
                 "on a /31 the peer's address is classified as broadcast - it is never resolved (frames go to ff:ff:ff:ff:ff:ff) and datagrams from it are treated as broadcasts", body=ib)
+
+
+@rule('R11.13', ['C11', 'C17'], floor=4, clause='a connected TCP socket accepts a segment only when all four of local address, local port, remote address and remote port equal its 4-tuple: accepts() compares each of them (a segment of another connection of the same peer cannot reset or close this one)')
+def r11_13(ctx):
+    F = ctx.F
+    b = ctx.method(SOCK, 'accepts')
+    rels = [f for bi, f in returned_comparisons(F, b) if f[1] == 'Eq']
+    for bi, bl in enumerate(b.blocks):
+        if bl['cl'] or bl['t'][0] != 'switch':
+            continue
+        rels += [f for tb, lab, f in cond_facts(F, b, bi) if f[0] == 'rel' and f[1] == 'Eq']
+    T = 'F:socket::tcp::Tuple.'
+    want = {
+        'local address': (lambda l: l.endswith('::dst_addr') or l.endswith('.dst_addr'), T + 'local', 'F:wire::ip::Endpoint.addr'),
+        'local port': (lambda l: l.endswith('Repr.dst_port'), T + 'local', 'F:wire::ip::Endpoint.port'),
+        'remote address': (lambda l: l.endswith('::src_addr') or l.endswith('.src_addr'), T + 'remote', 'F:wire::ip::Endpoint.addr'),
+        'remote port': (lambda l: l.endswith('Repr.src_port'), T + 'remote', 'F:wire::ip::Endpoint.port'),
+    }
+    for what, (pk, side, fld) in want.items():
+        hit = False
+        for f in rels:
+            for x, y in ((leafs(f[2]), leafs(f[3])), (leafs(f[3]), leafs(f[2]))):
+                if any(pk(l) for l in x) and side in y and fld in y and not any(l.startswith(T) for l in x):
+                    hit = True
+        if hit:
+            ctx.ok(('tcp::accepts', what), sample=dict(fn='tcp::Socket::accepts', compares=what))
+        else:
+            ctx.bad(f"tcp::accepts|4-tuple|{what.replace(' ', '-')}", f"tcp::Socket::accepts does not compare the segment's {what} with the connection's 4-tuple: a segment of another connection "
+                    "(same peer, different port / address) is processed by this socket - its RST closes, its FIN half-closes a connection it does not belong to", body=b)
+
+
+@rule('R16.14', ['C16'], floor=2, clause='only received traffic confirms a neighbour: the expiry of a cache entry is refreshed from the ingress paths (process_ipv4 / process_ipv6) and nowhere else - transmitting to a neighbour does not keep a silent entry alive')
+def r16_14(ctx):
+    F = ctx.F
+    m = ctx.method('iface::neighbor::Cache', 'reset_expiry_if_existing')
+    n = 0
+    for k, b in sorted(F.bodies.items()):
+        if '::test' in k or '::tests::' in k:
+            continue
+        for x in b.calls():
+            if b.callee_name(x[1]) == m.key:
+                n += 1
+                fn = k.rsplit('::', 1)[-1]
+                if fn in ('process_ipv4', 'process_ipv6'):
+                    ctx.ok(('reset_expiry', fn), sample=dict(caller=fn))
+                else:
+                    ctx.bad(f"neighbor-refresh|{fn}", f"{fn} refreshes the expiry of a neighbour cache entry although it is not an ingress path: an entry whose owner has gone silent "
+                            "never expires while the stack keeps sending to it, and the address is never resolved again", body=b, bb=x[0])
+    ctx.need(n >= 2, "callers of neighbor::Cache::reset_expiry_if_existing")
+
+
+@rule('R16.15', ['C16'], floor=1, clause='a Neighbor Advertisement replaces an address that is already cached only when its Override flag is set (RFC 4861 7.2.5): the cache fill in the NeighborAdvert arm sits behind `flags.contains(OVERRIDE)` or a failed lookup')
+def r16_15(ctx):
+    F = ctx.F
+    b = ctx.method('iface::interface::InterfaceInner', 'process_ndisc')
+    fill = ctx.method('iface::neighbor::Cache', 'fill')
+    adv = guard_edges(F, b, lambda f: f[0] == 'is' and f[2] == 'NeighborAdvert')
+    ctx.need(adv, "NeighborAdvert arm of process_ndisc")
+    seen = set()
+    for (bi, tb, lab) in adv:
+        seen |= set(b.reachable(start=tb))
+    sites = [x[0] for x in b.calls() if b.callee_name(x[1]) == fill.key and x[0] in seen and
+             any(l == 'D:NeighborAdvert' for a in x[2] for l in leafs(F.origin.operand(b, a, x[0], len(b.blocks[x[0]]['s']))))]
+    ctx.need(sites, "neighbor cache fill in the NeighborAdvert arm")
+
+    def over(f):
+        if f[0] != 'bool':
+            return False
+        ls = leafs(f[1])
+        if f[2] is True and any(l.endswith('NeighborFlags::contains') for l in ls) and 'N:wire::ndisc::NeighborFlags::OVERRIDE' in ls:
+            return True
+        return f[2] is False and any(l.endswith('::found') for l in ls if l.startswith('C:'))
+    for s_ in sites:
+        bad = unguarded(F, b, [s_], over)
+        if bad:
+            ctx.bad("process_ndisc|advert-overrides-without-flag", "a Neighbor Advertisement without the Override flag replaces a link-layer address that is already cached: a late, duplicate or forged "
+                    "advertisement redirects the traffic for that neighbour", body=b, bb=s_, path=bad[0][1])
+        else:
+            ctx.ok(('ndisc advert', 'override or unknown'), sample=dict(fn='process_ndisc', fill_behind='OVERRIDE || !lookup().found()'))
+
+
+@rule('R19.9', ['C19', 'C13'], floor=1, clause='every pending DNS query contributes a deadline to poll_at, also before its first transmission (when no server timeout is armed yet): the per-query deadline is Some(..) on every path of the Pending arm')
+def r19_9(ctx):
+    F = ctx.F
+    D = 'socket::dns::Socket'
+    p = ctx.method(D, 'poll_at')
+    cands = [cb for cb in F.closures_of(p.key) if 'Option<' in cb.locals[0]['ty'] and 'PollAt' in cb.locals[0]['ty']]
+    if not cands:
+        from .c13 import _min_loop
+        ctx.need(_min_loop(F, p), "per-query deadline closure (filter_map) or loop in dns::poll_at")
+        ctx.note("dns::poll_at is written as a loop: the Pending arm is covered by R13.1's loop form") if hasattr(ctx, 'note') else None
+        ctx.ok(('dns::poll_at', 'loop form'))
+        return
+    cb = cands[0]
+    pend = guard_edges(F, cb, lambda f: (f[0] == 'is' and f[2] == 'Pending') or (f[0] == 'isnot' and 'Pending' not in f[2] and f[3].endswith('dns::State') and len(f[2]) >= 2))
+    ctx.need(pend, "Pending arm in the per-query closure of dns::poll_at")
+    seen = set()
+    for (bi, tb, lab) in pend:
+        seen |= set(cb.reachable(start=tb))
+    bad = []
+    n = 0
+    for (bi, si, kind, path, rv) in cb._all_defs().get(0, []):
+        if bi not in seen or path != []:
+            continue
+        n += 1
+        v = simplify(F.origin.call_node(cb, rv, bi, 0, None)) if kind == 'call' else simplify(F.origin.rvalue(cb, rv, bi, si, 0, None))
+        for a in alts(v):
+            a = strip(a)
+            if not ((a[0] in ('agg', 'variant')) and str(a[1]).endswith('Option::Some')):
+                bad.append(a)
+    ctx.need(n >= 1, "definition of the per-query deadline in the Pending arm")
+    if bad:
+        ctx.bad("dns::poll_at|pending-without-deadline", f"a pending query can contribute no deadline to dns::poll_at ({show(bad[0])[:70]}): a query that has not been transmitted yet "
+                "(no server timeout armed) is invisible to an event loop that sleeps until poll_at - it is never sent", body=cb)
+    else:
+        ctx.ok(('dns::poll_at', 'pending => Some'), sample=dict(fn='dns::poll_at', pending_query='always Some(PollAt::Time(..))'))
